@@ -29,6 +29,7 @@ def run(ctx):
         viewshist.run_histories(ctx, 10000, 20)
     else:
         viewshist.run_histories(ctx, 400, 20)
+    viewshist.run_claim_probes(ctx)
 
 
 def search(ctx, hints):
